@@ -84,6 +84,34 @@ func fieldWrites(v *variants.Variant) []fieldWrite {
 			if !ok {
 				return
 			}
+			// a store into a field of a local struct VALUE (a parameter or variable holding a copy: `pt.offset += pt.w`
+			// in a function that takes and returns a savepoint) changes that copy only; what counts is where the copy is
+			// stored afterwards (a whole-struct assignment, recorded for its own target)
+			{
+				root := ast.Expr(sel)
+				viaPointer := false
+				for {
+					if se, ok := root.(*ast.SelectorExpr); ok {
+						if _, isPtr := v.Info.TypeOf(se.X).(*types.Pointer); isPtr {
+							viaPointer = true
+						}
+						root = se.X
+						continue
+					}
+					if pe, ok := root.(*ast.ParenExpr); ok {
+						root = pe.X
+						continue
+					}
+					break
+				}
+				if id, ok := root.(*ast.Ident); ok && !viaPointer {
+					if obj, ok := v.Info.ObjectOf(id).(*types.Var); ok && !obj.IsField() && obj.Parent() != nil && obj.Parent() != v.Pkg.Scope() {
+						if _, isStruct := obj.Type().Underlying().(*types.Struct); isStruct {
+							return
+						}
+					}
+				}
+			}
 			// record the whole chain: p.pt.offset writes position.offset, and touches savepoint (via pt)
 			for sel != nil {
 				s := v.Info.Selections[sel]
